@@ -371,6 +371,9 @@ def _module_state(mod):
 
 
 def translations():
+    import os as _os
+    import srcguard as _srcguard
+    _srcguard.guard_from_baseline("specs_stats", _os.environ.get("PYDREX_REPO", "/repo"))   # fail closed on new block-size-like integers
     import pydrex.stats as stats
 
     real = stats.__dict__["resample_orientations"]
